@@ -111,7 +111,7 @@ func rule031(r *core.Run) {
 		for _, g := range core.GuardsOf(s.call) {
 			cd := core.CondOf(g.If.Cond)
 			truth := g.Branch != cd.Neg
-			gs := r.P.SliceOf(g.If.Cond, core.SliceOpts{Depth: -1})
+			gs := r.P.SliceOf(g.If.Cond, core.SliceOpts{Depth: -1, Control: true})
 			// Prefix.Match(key, ...) true
 			for c := range gs.Calls {
 				cc, ok := c.(*ssa.Call)
